@@ -419,6 +419,15 @@ static void check_offline(int lt, const std::vector<Frame>& fr, const std::strin
             if (g2 != (m2 == 1)) { violation(std::string("offline-filter/pdu/") + onm[k], std::string("matches_filter(PDU&) = ") + (g2 ? "true" : "false") + " but libpcap says " + (m2 ? "match" : "no match") + " on its serialization :: " + ctx + " filter='" + expr + "' frame#" + std::to_string(j) + " bytes=" + hex(s, 200)); return; }
         }
     }
+    // packets that were built through the API and never serialized (their length fields are not up to date yet): the filter must see what
+    // serialize() produces, as libpcap does on those bytes
+    if (lt != L_PPI) for (int t = 0; t < 3; ++t) {
+        std::unique_ptr<PDU> fresh(gen_top(lt, rng)); int k = (int)rng.below(3); if (!objs[k]) k = 0;
+        bool got; try { got = objs[k]->matches_filter(*fresh); } catch (...) { violation("offline-filter/pdu-exception/" + current_exception_type(), "matches_filter(PDU&) threw on an API-built packet :: " + ctx + " filter='" + expr + "'"); return; }
+        Bytes s2 = fresh->serialize(); ExactBuf sb(s2); int m2 = oracle.match(sb.data(), (u32)s2.size(), (u32)s2.size()); if (m2 < 0) continue;
+        cnt("offline:pdu-checks-on-never-serialized-packets");
+        if (got != (m2 == 1)) { violation(std::string("offline-filter/pdu-fresh/") + onm[k], std::string("matches_filter(PDU&) = ") + (got ? "true" : "false") + " on a freshly built packet but libpcap says " + (m2 ? "match" : "no match") + " on its serialization :: " + ctx + " filter='" + expr + "' bytes=" + hex(s2, 200)); return; }
+    }
     cnt("offline:filters");
 }
 
